@@ -234,6 +234,28 @@ macro_rules! kf_seek_past_end {
     };
 }
 
+/// Seeking a whole counter range (or more) beyond the end: either the seek is refused, or the
+/// following request is; keystream must never be produced from there.  p = (2^w + K) * b + off.
+macro_rules! seek_far_beyond {
+    ($name:ident, $unw:expr, $alias:ident, $ct:ty, $bs:ty, $b:expr, $k:expr, $off:expr) => {
+        #[kani::proof]
+        #[kani::unwind($unw)]
+        pub fn $name() {
+            const B: usize = $b;
+            let key: [u8; 2] = kani::any();
+            let iv: [u8; B] = kani::any();
+            let mut s = ctr::$alias::<UfE<$bs, U1>>::new(&key.into(), blk::<$bs>(&iv));
+            kani::cover!(true);
+            let p: u128 = ((<$ct>::MAX as u128) + 1 + $k as u128) * B as u128 + $off as u128;
+            if s.try_seek(p).is_ok() {
+                let d: [u8; B + 1] = kani::any();
+                let mut buf = d;
+                assert!(s.try_apply_keystream(&mut buf).is_err(), "keystream produced after a seek far beyond the end (silent wrap)");
+            }
+        }
+    };
+}
+
 // ---- quick -----------------------------------------------------------------------------------
 ctr_limit!(lim_ctr32le_b4_w1_r2_o1_seek, 64, Ctr32LE, spec::CTR32LE, u32, U4, 4, U1, 2, 1, true);
 ctr_limit!(lim_ctr32be_b4_w2_r2_o0_seek, 64, Ctr32BE, spec::CTR32BE, u32, U4, 4, U2, 2, 0, true);
@@ -242,6 +264,9 @@ ctr_limit!(lim_ctr128le_b16_w1_r1_o0_core, 100, Ctr128LE, spec::CTR128LE, u128, 
 belt_limit!(lim_belt_w1_r1_o5, 100, U1, 1, 5);
 ctr_seek_end!(end_ctr32be_b4, 64, Ctr32BE, u32, U4, 4);
 ctr_seek_end!(end_ctr64le_b8, 64, Ctr64LE, u64, U8, 8);
+seek_far_beyond!(far_ctr32be_b16_k0_o0, 100, Ctr32BE, u32, U16, 16, 0, 0);
+seek_far_beyond!(far_ctr32le_b4_k5_o3, 64, Ctr32LE, u32, U4, 4, 5, 3);
+seek_far_beyond!(far_ctr64be_b8_k1_o0, 64, Ctr64BE, u64, U8, 8, 1, 0);
 ctr_injective!(inj_ctr32be_b8, 64, Ctr32BE, u32, U8, 8);
 ctr_injective!(inj_ctr32le_b8, 64, Ctr32LE, u32, U8, 8);
 ctr_injective!(inj_ctr64be_b16, 64, Ctr64BE, u64, U16, 16);
